@@ -762,3 +762,27 @@ Definition view_direct (L : lreq) : view := view_of (fun _ => None) (http_conn L
 (** what matching and the pipeline read of the URL and the method *)
 Definition url_parts (v : view) : string * string * string * string * string :=
   (v_method v, v_scheme v, v_host v, v_rawpath v, v_query v).
+
+(* ------------------------------------------------------------------ requests in flight at the same time *)
+
+(** Several requests are being processed; each has its own context, which decodes the body at the first
+    Body() call and caches the result ([savedBody]).  [flight]: per request the logical request and its
+    cache; an operation is "the pipeline of request i reads the body".  There is no state shared
+    between the contexts — that is the point the correspondence stream `interleaved` ties to the code. *)
+Definition flight := list (lreq * option value).
+
+Fixpoint read_body (bodyf : lreq -> value) (i : nat) (st : flight) : option value * flight :=
+  match st, i with
+  | [], _ => (None, [])
+  | (L, c) :: r, O =>
+    let v := match c with Some v => v | None => bodyf L end in
+    (Some v, (L, Some v) :: r)
+  | x :: r, S j => let '(v, r') := read_body bodyf j r in (v, x :: r')
+  end.
+
+(** the values a sequence of reads returns *)
+Fixpoint run_reads (bodyf : lreq -> value) (ops : list nat) (st : flight) : list (nat * option value) :=
+  match ops with
+  | [] => []
+  | i :: r => let '(v, st') := read_body bodyf i st in (i, v) :: run_reads bodyf r st'
+  end.
